@@ -40,6 +40,41 @@ type goFile struct {
 	imports  map[string]string          // import path -> qualifier
 	defaults map[string]*ast.ValueSpec   // X_F_DEFAULT variables by name
 	newX     map[string]*ast.CompositeLit // Go type -> the literal NewX returns
+	initDefault []*ast.FuncDecl            // the InitDefault methods
+}
+
+// inInitialiser: does the line lie in code that Resolver.resolveConst emitted -- the const/var groups of the IDL
+// constants, a <T>_<F>_DEFAULT variable, the literal NewX returns, the body of an InitDefault method?
+func (g *goFile) inInitialiser(line int) bool {
+	in := func(n ast.Node) bool {
+		return n != nil && g.fset.Position(n.Pos()).Line <= line && line <= g.fset.Position(n.End()).Line
+	}
+	for _, sp := range g.consts {
+		if in(sp) {
+			return true
+		}
+	}
+	for _, sp := range g.vars {
+		if in(sp) {
+			return true
+		}
+	}
+	for _, sp := range g.defaults {
+		if in(sp) {
+			return true
+		}
+	}
+	for _, cl := range g.newX {
+		if in(cl) {
+			return true
+		}
+	}
+	for _, fd := range g.initDefault {
+		if in(fd.Body) {
+			return true
+		}
+	}
+	return false
 }
 
 func untypedGroup(d *ast.GenDecl) []*ast.ValueSpec {
@@ -115,6 +150,9 @@ func scanGoFile(mod, rel string) (*goFile, error) {
 				}
 			}
 		case *ast.FuncDecl:
+			if d.Recv != nil && d.Body != nil && d.Name.Name == "InitDefault" {
+				g.initDefault = append(g.initDefault, d)
+			}
 			// func NewX() *X { return &X{ … } }
 			if d.Recv == nil && d.Body != nil && len(d.Body.List) == 1 && strings.HasPrefix(d.Name.Name, "New") {
 				if rs, ok := d.Body.List[0].(*ast.ReturnStmt); ok && len(rs.Results) == 1 {
